@@ -822,7 +822,7 @@ func Run(c *vl.Ctx) {
 		seen[p.id] = true
 	}
 	if c.Quick() {
-		c.SetBudget(80e9)
+		c.SetBudget(300e9)
 	} else {
 		c.SetBudget(840e9)
 	}
